@@ -14,7 +14,10 @@ RULE = ("environments = DIP text with 3-7 typed nodes (float/int with units of 7
         "dimension, made well-formed by inserting parentheses, rendered by the Lean renderer (mandatory blanks around binary "
         "operators, random optional blanks) and solved by the real NumericalSolver/LogicalSolver, directly and through DIP text "
         "(x float = (\"expr\") unit, c bool = (\"expr\"), @case (\"expr\")); comparison operands are placed at, within 0.4e-6 of, "
-        "3e-6 off and far off equality, in other units of the same dimension; templates = random text with {{ref}[slice]:fmt} holes; nodes of the environments are modified after their definition; pairs A == B / A != B "
+        "3e-6 off and far off equality, in other units of the same dimension; templates = random text with {{ref}[slice]:fmt} holes; nodes of the environments are modified after their definition; integer nodes of one dimension in different units (m, km, custom) whose "
+        "values are no whole multiples of each other, compared with each other; int nodes defined by expressions (the nearest integer of the exact "
+        "result, with expressions that land a few ulp beside an integer); definedness tests of nodes that are only declared / defined as none "
+        "when the expression is evaluated (bool node, @case); pairs A == B / A != B "
         "on the same operands; comparisons that must be refused (other dimension, missing reference); histories of 4-8 calls of the three solvers "
         "and fresh parses on one environment with custom $units in which some calls raise; "
         "plus a stream of malformed strings (informational: agreement is counted, never judged). non-trivial = tree with >=2 binary "
@@ -31,6 +34,7 @@ ASSUMPTIONS = [
     "nodes of the same text, true/false, !{?name}",
     "comparisons are judged only when the verdict is robust: same result in the unit of either operand and at least 10% away from "
     "the tolerance boundary 1e-8 + 1e-6*|b| (np.isclose as used by the code); int-node versus float-node comparison is refused by the code and not judged",
+    "an int node defined by an expression is judged when the exact result is at least 0.01 away from a half-integer and below 1e9",
     "malformed strings (outside the three grammars) are compared for information only: rejecting them is property C01",
     "format()/str() of Python are parameters of the template specification",
 ]
@@ -158,6 +162,13 @@ def gen_env(rng, custom=None):
             val = rng.choice(NUMS)
             lines.append("%s float = %s%s" % (n, val, " " + unit if unit else ""))
             nodes[n] = ("float", float(val), unit, dim)
+    # integer nodes of one dimension in different units (standard and custom): compared with each other they are converted
+    # (the value in m is not a whole multiple of the other units: 1400 m against 1 km, 1401 m against 700 [x] = 1400 m)
+    kk = rng.randint(1, 4)
+    v1 = 1000 * kk + rng.choice([400, -400, 300, -300, 0, 499, -499, 1, 401])
+    for n, u, val in [("i1", "m", v1), ("i2", "km", kk)] + ([("i3", "[x]", v1 // 2 + rng.choice([0, 0, 1]))] if custom else []):
+        lines.append("%s int = %d %s" % (n, val, u))
+        nodes[n] = ("int", val, u, "L")
     bval = rng.random() < 0.5
     lines.append("t bool = %s" % ("true" if bval else "false"))
     nodes["t"] = ("bool", bval, None, None)
@@ -168,7 +179,7 @@ def gen_env(rng, custom=None):
     mods = []
     for n in list(nodes):
         kind, val, unit, dim = nodes[n]
-        if rng.random() < 0.45:
+        if rng.random() < 0.45 and n not in ("i1", "i2", "i3"):
             if kind == "float":
                 u2 = rng.choice(dims[dim])
                 v2 = rng.choice(NUMS)
@@ -513,6 +524,25 @@ def num_stream(ctx, tabs, envs, count, corpus):
 
 
 # ------------------------------------------------------------------ numerical through DIP text
+def int_landing(rng):
+    """Expressions whose exact value is an integer while the float evaluation may land a few ulp beside it: mixed units with
+    the larger unit first, ratios and products of decimals."""
+    r = rng.random()
+    if r < 0.4:
+        big, small, out = rng.choice([("km", "m", "m"), ("m", "cm", "cm"), ("m", "mm", "mm"), ("cm", "mm", "mm"), ("kg", "g", "g"), ("min", "s", "s")])
+        e = ["bin", "add", ["lit", "%d %s" % (rng.randint(1, 9), big)], ["lit", "%d %s" % (rng.randint(1, 99), small)]]
+        if rng.random() < 0.3:
+            e = ["bin", rng.choice(["add", "sub"]), e, ["lit", "%d %s" % (rng.randint(1, 9), small)]]
+        return e, out
+    if r < 0.7:
+        a, b = rng.choice([("0.3", "0.1"), ("0.7", "0.1"), ("2.1", "0.3"), ("0.6", "0.2"), ("1.2", "0.4"), ("4.35", "0.05"), ("0.9", "0.3"), ("5.1", "0.3")])
+        u = rng.choice(["m", "cm", "s", "kg"])
+        return ["bin", "truediv", ["lit", "%s %s" % (a, u)], ["lit", "%s %s" % (b, u)]], None
+    a, b = rng.choice([("0.29", "100"), ("1.15", "100"), ("4.35", "100"), ("1.1", "10"), ("0.57", "100"), ("2.3", "100"), ("8.7", "10")])
+    u = rng.choice([None, "m", "kg"])
+    return ["bin", "mul", ["lit", a + (" " + u if u else "")], ["lit", b]], u
+
+
 def dip_num_stream(ctx, tabs, envs, count):
     from scinumtools.dip import DIP
     rng = ctx.rng
@@ -522,18 +552,23 @@ def dip_num_stream(ctx, tabs, envs, count):
         dim = rng.choice([d for d in DIMS if d != "0"] + ["0"])
         ast = no_sign_after_paren(wf_fix(gen_num(rng, E, dim, rng.randint(1, 3)), NUM_LVL))
         out = rng.choice(E.units[dim])
-        cases.append((E, units, ast, [0] * 40, out))
+        cases.append((E, units, ast, [0] * 40, out, rng.choice(["float", "float", "int"])))
+    for _ in range(count // 3):
+        E, units = rng.choice(envs)
+        ast, out = int_landing(rng)
+        cases.append((E, units, ast, [0] * 40, out, "int"))
     # recon: zero result and unit-less node
     E0, u0 = envs[0]
-    cases.append((E0, u0, ["bin", "sub", ["lit", "1 m"], ["lit", "100 cm"]], [], "m"))
-    cases.append((E0, u0, ["bin", "truediv", ["lit", "3"], ["lit", "2"]], [], None))
+    cases.append((E0, u0, ["bin", "sub", ["lit", "1 m"], ["lit", "100 cm"]], [], "m", "float"))
+    cases.append((E0, u0, ["bin", "truediv", ["lit", "3"], ["lit", "2"]], [], None, "float"))
+    cases.append((E0, u0, ["bin", "add", ["lit", "1 km"], ["lit", "1 m"]], [], "m", "int"))
     reqs = []
-    for E, units, ast, blanks, out in cases:
+    for E, units, ast, blanks, out, ntype in cases:
         q = base_req("num", tabs, E, units)
         q.update({"ast": ast, "blanks": blanks, "out": out})
         reqs.append(q)
     res = ctx.driver.ask_many(reqs)
-    for (E, units, ast, blanks, out), r in zip(cases, res):
+    for (E, units, ast, blanks, out, ntype), r in zip(cases, res):
         if "ok" not in r:
             ctx.disagreement("dipnum", {"ast": ast}, "driver error %s" % r)
             continue
@@ -543,7 +578,15 @@ def dip_num_stream(ctx, tabs, envs, count):
             spec = "err"     # a result with dimensions is refused by a node without unit
         if "'" in m["text"] or not (finite(spec) or spec == "err"):
             continue
-        text = E.text + "\nres float = ('%s')%s" % (m["text"], " " + out if out else "")
+        if ntype == "int" and finite(spec):
+            # an int node takes the nearest integer of the exact result; results (nearly) halfway or too large to resolve are not judged
+            if not finite(m["scale"]) or 1e-9 * abs(m["scale"]) > 0.01 or abs(spec) > 1e9:
+                continue
+            k = round(spec)
+            if abs(spec - k) > 0.49:
+                continue
+            spec = float(k)
+        text = E.text + "\nres %s = ('%s')%s" % (ntype, m["text"], " " + out if out else "")
         try:
             with warnings.catch_warnings():
                 warnings.simplefilter("ignore")
@@ -559,14 +602,16 @@ def dip_num_stream(ctx, tabs, envs, count):
         replay = {"stream": "dipnum", "text": text, "impl": imp, "spec": spec}
         ok = (imp == spec) if isinstance(spec, str) or isinstance(imp, str) else close(imp, spec, m["scale"])
         if not ok:
-            if finite(spec) and spec == 0:
+            if ntype == "int":
+                sig = "dip:int-expr-rounding"
+            elif finite(spec) and spec == 0:
                 sig = "dip:num-expr-zero-result"
             elif out is None:
                 sig = "dip:num-expr-unitless-node"
             else:
                 sig = "dip:num-expr"
-            ctx.violation(sig, "node defined by the expression %r%s gets %s, specification %s" %
-                          (m["text"], " " + out if out else "", imp, spec), replay)
+            ctx.violation(sig, "%s node defined by the expression %r%s gets %s, specification %s" %
+                          (ntype, m["text"], " " + out if out else "", imp, spec), replay)
 
 
 # ------------------------------------------------------------------ logical
@@ -607,6 +652,10 @@ def gen_cmp(rng, E, units_tab):
         return ["bin", rng.choice(["eq", "ne"]), ["lit", "{?t}"], ["lit", rng.choice(["true", "false", "{?t}"])]]
     if rng.random() < 0.04:
         return gen_refused_cmp(rng, E)
+    ints = [n for n in ("i1", "i2", "i3") if n in E.nodes]
+    if len(ints) >= 2 and rng.random() < 0.06:
+        a, b = rng.sample(ints, 2)
+        return ["bin", op, ["lit", "{?%s}" % a], ["lit", "{?%s}" % b]]
     delta = rng.choice([0, 0, 4e-7, -4e-7, 3e-6, -3e-6, 0.5, -0.3, 2.0])
     if r < 0.75 and num_nodes:
         n = rng.choice(num_nodes)
@@ -751,11 +800,16 @@ def dip_log_stream(ctx, tabs, envs, count):
     cases = []
     for _ in range(count):
         E, units = rng.choice(envs)
-        ast = wf_fix(gen_log(rng, E, units, rng.randint(0, 2)), LOG_LVL)
-        cases.append((E, units, ast, rng.choice(["case", "bool"])))
+        ast = gen_log(rng, E, units, rng.randint(0, 2))
+        if rng.random() < 0.4:
+            # dd is declared before and assigned after the expression, dn is defined as none: both nodes exist
+            d = rng.choice([["lit", "!{?dd}"], ["pre", "not", ["lit", "!{?dd}"]], ["lit", "!{?dn}"], ["pre", "not", ["lit", "!{?zz}"]]])
+            ast = rng.choice([d, ["bin", rng.choice(["and", "or"]), d, ast], ["bin", rng.choice(["and", "or"]), ast, d]])
+        cases.append((E, units, wf_fix(ast, LOG_LVL), rng.choice(["case", "bool"])))
     reqs = []
     for E, units, ast, how in cases:
         q = base_req("log", tabs, E, units)
+        q["nodes"] = q["nodes"] + [["dd", "other", None, "cm"], ["dn", "other", None, "cm"]]
         q.update({"ast": ast, "blanks": []})
         reqs.append(q)
     res = ctx.driver.ask_many(reqs)
@@ -766,10 +820,11 @@ def dip_log_stream(ctx, tabs, envs, count):
         m = r["ok"]
         if m["spec"] in ("unknown",) or m["model"] == "outside" or "'" in m["text"]:
             continue
+        head = "dd float cm\ndn float = none cm\n" + E.text
         if how == "case":
-            text = E.text + "\n@case ('%s')\n  res int = 1\n@else\n  res int = 2\n@end" % m["text"]
+            text = head + "\n@case ('%s')\n  res int = 1\n@else\n  res int = 2\n@end\ndd = 12 cm" % m["text"]
         else:
-            text = E.text + "\nres bool = ('%s')" % m["text"]
+            text = head + "\nres bool = ('%s')\ndd = 12 cm" % m["text"]
         try:
             with warnings.catch_warnings():
                 warnings.simplefilter("ignore")
